@@ -88,6 +88,8 @@ impl LocustDB {
             }
         };
 
+        #[cfg(locustdb_verif)]
+        crate::verif::gate("query:snapshot_taken", &query.table);
         let query_task = QueryTask::new(
             query,
             rowformat,
@@ -126,7 +128,11 @@ impl LocustDB {
     }
 
     pub async fn ingest_efficient(&self, events: EventBuffer) {
+        #[cfg(locustdb_verif)]
+        crate::verif::gate("ingest:begin", "");
         self.inner_locustdb.ingest_efficient(events);
+        #[cfg(locustdb_verif)]
+        crate::verif::gate("ingest:end", "");
     }
 
     pub async fn gen_table(&self, opts: GenTable) -> Result<(), oneshot::Canceled> {
